@@ -905,24 +905,33 @@ func ruleR30(c *Ctx) {
 			}
 		}
 		if f.Obj.Name() == "MarshalXML" {
-			inspectNoLit(f.Body, func(m ast.Node) bool {
-				cc, ok := m.(*ast.CaseClause)
-				if !ok || len(cc.List) != 1 {
-					return true
+			anyIface := func(t types.Type) bool {
+				if t == nil {
+					return false
 				}
-				tn := typeString(fin.TypeOf(cc.List[0]))
-				ast.Inspect(cc, func(z ast.Node) bool {
-					if kv, ok := z.(*ast.KeyValueExpr); ok {
-						if id, ok := kv.Key.(*ast.Ident); ok && id.Name == "Value" {
-							if sv, ok := constString(fin, kv.Value); ok {
-								written[tn] = sv
-							}
-						}
+				_, ok := t.Underlying().(*types.Interface)
+				return ok
+			}
+			for _, arms := range typeDispatches(p, f, anyIface) {
+				for _, arm := range arms {
+					if len(arm.Types) != 1 {
+						continue
 					}
-					return true
-				})
-				return true
-			})
+					tn := typeString(arm.Types[0])
+					for _, st := range arm.Body {
+						ast.Inspect(st, func(z ast.Node) bool {
+							if kv, ok := z.(*ast.KeyValueExpr); ok {
+								if id, ok := kv.Key.(*ast.Ident); ok && id.Name == "Value" {
+									if sv, ok := constString(fin, kv.Value); ok {
+										written[tn] = sv
+									}
+								}
+							}
+							return true
+						})
+					}
+				}
+			}
 		}
 	}
 	readsFormal := func(v string) bool {
